@@ -32,7 +32,7 @@ _CALLABLE_BUILTINS = {k for k, v in _BUILTINS.items() if callable(v)}
 _PURE_METHODS = {
     str: {"join", "lower", "upper", "encode", "format", "split", "strip", "lstrip", "rstrip",
           "startswith", "endswith", "replace", "translate", "isdigit", "isalpha", "title",
-          "find", "index", "count", "capitalize"},
+          "find", "index", "count", "capitalize", "islower", "isupper", "isalnum", "isspace"},
     bytes: {"decode", "lower", "upper", "join", "split", "strip", "startswith", "endswith"},
     dict: {"items", "keys", "values", "get", "copy"},
     frozenset: {"union", "intersection", "difference", "issubset", "issuperset", "copy"},
